@@ -11,22 +11,21 @@ from vlib import std, lab, common
 PID = "C07"
 META = {
     "text": "Theorems (Properties_C07.v, closed under the global context) about the FwdState attempt machine transcribed "
-            "from src/FwdState.cc (checkRetry, checkRetriable, retryOrBail, reforward, complete, fail/reactToZeroSizeObject, "
-            "noteDestination*, useDestinations, connectStart, noteConnection, dispatch, usePinned), the HappyConnOpener attempt "
-            "loop, PconnPool::pop's close-if-not-retriable rule, ResolvedPeers::reinstatePath, bodyNibbled and the failure exits "
-            "of HttpStateData, with isHttpSafe/isIdempotent and IsReforwardableStatus regenerated from the code each run: for "
-            "EVERY configuration, EVERY sequence of environment events (destinations arriving at any time, idle persistent "
-            "connections present or not, connects failing or succeeding, zero-size replies, read/write errors, timeouts, "
-            "truncated headers, replies cut in the body, the persistent-connection race, aborts, shutdown, time running out) "
-            "and every request whose method is neither safe nor idempotent -- or that carries a body -- the number of times "
-            "the request is written on a connection is at most 1 + the number of reforward() decisions; it is at most 1 when "
-            "no reply header with a re-forwardable status (502/504, and 403/500/501/503 with retry_on_error) is received; POST "
-            "and extension methods (PATCH is one in this tree) are such methods per the regenerated table; once request body "
-            "bytes were consumed the request is never sent again; a failed connect (nothing sent) may still be followed by one "
-            "send; GET is retried on another path and after a pconn race (non-vacuity). The full statement 'at most once "
-            "whenever the connection fails after sending' is REFUTED: a body-less POST answered by a 502/504 header whose body "
-            "is cut by a connection close is sent again to the next path (reforward() never looks at the method) -- known "
-            "finding C07-reforward-after-truncated-5xx, reproduced through the binary on every run.",
+            "from src/FwdState.cc (checkRetry, checkRetriable, retryOrBail, reforward incl. its `err && !checkRetriable()` test, "
+            "complete, fail/reactToZeroSizeObject, noteDestination*, useDestinations, connectStart, noteConnection, dispatch, "
+            "usePinned), the HappyConnOpener attempt loop, PconnPool::pop's close-if-not-retriable rule, "
+            "ResolvedPeers::reinstatePath, bodyNibbled and the failure exits of HttpStateData, with isHttpSafe/isIdempotent and "
+            "IsReforwardableStatus regenerated from the code each run: for EVERY configuration and EVERY sequence of environment "
+            "events (destinations arriving at any time, idle persistent connections, connects failing or succeeding, zero-size "
+            "replies, read/write errors, timeouts, truncated headers, replies cut in the body, the persistent-connection race, "
+            "pinned connections, aborts, shutdown, time running out) in which no COMPLETE re-forwardable reply arrived, a request "
+            "that checkRetriable() rejects -- method neither safe nor idempotent, or a body present -- is written on a connection "
+            "at most once; in general sends <= 1 + number of completely received replies (every reforward() decision for such a "
+            "request needs a whole reply) and sends <= 1 + reforward() decisions; POST and extension methods (PATCH is one in "
+            "this tree) are such methods per the regenerated table; once request body bytes were consumed the request is never "
+            "sent again; a failed connect (nothing sent) may still be followed by one send; GET is retried on another path and "
+            "after a pconn race (non-vacuity). Stated as outside the property: a completely received 502/504 (403/500/501/503 "
+            "with retry_on_error) reply is not a connection failure and is re-forwarded whatever the method.",
     "note": "partial: the theorems are about the transcribed decision machine; that the event-driven proxy follows it "
             "(AsyncCall order, comm, HttpStateData internals, peer selection delivering all addresses before the first "
             "connect result) rests on the end-to-end correspondence. One address family / no cache_peer, so HappyConnOpener "
@@ -273,14 +272,9 @@ def oracle(s, obs):
         behs = attempt_behaviours(s, alist)
         for j, b in enumerate(behs[:-1]):
             if is_failure(b):
-                cfg_onerr = CFGS[s["cfg"]][3]
                 what = ("%s request was sent on %d upstream connections (%s); attempt %d (origin behaviour %s) had failed after "
                         "the request was sent; the origin read %d request heads and %d complete bodies"
                         % (m, len(alist), ",".join(alist), j + 1, b, heads, bodies))
-                if b.startswith("R") and b[-1] == "f" and not s["body"]:
-                    st = int(b[1:-1])
-                    if st in (502, 504) or (cfg_onerr and st in (403, 500, 501, 503)):
-                        return ("oracle:nonidempotent-resent-after-truncated-5xx-reply", what)
                 return ("oracle:nonidempotent-resent", what)
     if bodies >= 2:
         return ("oracle:request-body-arrived-twice", "%s request body arrived %d times at the origin (%s)" % (m, bodies, obs))
